@@ -35,7 +35,8 @@ int  fv_wrap_next(void);     /* -1: stop; else source id to continue with */
 void *fv_alloc(size_t n);
 void *fv_realloc(void *p, size_t n);
 void fv_free(void *p);
-extern int fv_bol_needed, fv_has_lineno;
+extern int fv_bol_needed, fv_has_lineno, fv_default_rule;
+extern long fv_last_leng, fv_cur_prefix; extern int fv_more_set;
 #ifdef FV_BACKEND_R
 #define FV_PROTO_LAST , void *yyscanner
 #else
@@ -82,8 +83,10 @@ extern int fv_bufsize;           /* set from the case file: YY_BUF_SIZE is a run
 #define FV_DO_TOP() fv_fatal("harness: top without stack support")
 #endif
 
-#define FV_MATCH(i) fv_log_match((i), yytext, (long) yyleng, FV_LINENO_EXPR, yystart(), \
-                                 fv_bol_needed ? yyatbol() : -1)
+#define FV_MATCH(i) do { fv_cur_prefix = fv_more_set ? fv_last_leng : 0; fv_more_set = 0; \
+    fv_last_leng = (long) yyleng; \
+    fv_log_match((i), yytext, (long) yyleng, FV_LINENO_EXPR, yystart(), \
+                 fv_bol_needed ? yyatbol() : -1); } while (0)
 
 /* ops shared by actions and by section-3 code */
 #define FV_COMMON_OPS(a_, b_) \
@@ -100,8 +103,9 @@ extern int fv_bufsize;           /* set from the case file: YY_BUF_SIZE is a run
     for (;;) { long a_ = 0, b_ = 0; int op_ = fv_next_op(&a_, &b_); \
         if (op_ == FV_OP_END) break; \
         switch (op_) { \
-        case FV_OP_LESS: yyless((int) a_); fv_log_text("less", yytext, (long) yyleng); break; \
-        case FV_OP_MORE: FV_DO_MORE; break; \
+        case FV_OP_LESS: { int n_ = (int) (fv_cur_prefix + a_ % ((long) yyleng - fv_cur_prefix + 1)); \
+            yyless(n_); fv_last_leng = (long) yyleng; fv_log_text("less", yytext, (long) yyleng); } break; \
+        case FV_OP_MORE: FV_DO_MORE; fv_more_set = 1; break; \
         case FV_OP_UNPUT: yyunput((int) a_); break; \
         case FV_OP_INPUT: { int c_ = yyinput(FV_A1); fv_log_int("in", c_); } break; \
         case FV_OP_REJECT: FV_DO_REJECT; break; \
@@ -113,7 +117,8 @@ extern int fv_bufsize;           /* set from the case file: YY_BUF_SIZE is a run
 
 #define ACT(i) { FV_MATCH(i); FV_OPS(); }
 /* the default rule's action (ECHO) is observed like any other action */
-#define yyecho() ACT(YY_NUM_RULES)
+/* it is not user code, so it takes no script */
+#define yyecho() { fv_default_rule = 1; FV_MATCH(YY_NUM_RULES); }
 #define ACT_EOF(k) { fv_log_eof(yystart()); FV_OPS(); yyterminate(); }
 
 #endif
